@@ -470,6 +470,11 @@ func randomLists(lists, entries, probes int) {
 		if li%2 == 0 {
 			// on a set without regexp entries (their evaluation dwarfs the walk of the label tree and goes through
 			// the instrumented buffer pool): loaded and probed sequentially first, so the trace vouches for `want`
+			// first on the full set, regular expressions included: concurrent look-ups (names that match a regexp
+			// entry among them), then the same probe once more by a single caller - look-ups do not change what
+			// the set matches. (Before the second session: the trace knows one current session.)
+			s.probeConcurrent(ps, 16, 150*time.Millisecond)
+			s.probe(ps)
 			var plain []entry
 			for _, e := range es {
 				if e.kind != "regexp" {
